@@ -502,6 +502,13 @@ class World(object):
                 self.factory = site.resource.children[b"v1"]._factory
         if self.server is None or self.factory is None or self.timer is None:
             raise Inconclusive("service layout not recognised")
+        # the oracles are written for the documented constants (expiry 11 min, sweep every 5 min); a tree that
+        # configures other values is not judged against the wrong numbers: inconclusive, unless the values
+        # themselves break the stated relation (expiration must exceed the period), which the oracles will show
+        exp = getattr(self.tap_mod, "CHANNEL_EXPIRATION_TIME", 660.0)
+        per = getattr(self.tap_mod, "EXPIRATION_CHECK_PERIOD", 300.0)
+        if (exp, per) != (660.0, 300.0) and exp > per:
+            raise Inconclusive("expiration constants are %r/%r, the checks are written for 660/300" % (exp, per))
         self._wrap_server()
         if self._log_obs is None:
             self._log_obs = self._observe_log
